@@ -85,7 +85,7 @@ def judgeC01 (v : Int) (segs : List Segment) (exp : List (String × List Nat)) (
       | none => "payload-mismatch"
       | some (canons, exp') =>
         let canon := canons.headD "-"
-        if !(canons.all (· == canon)) then "merged-parts-of-different-encodings"
+        if s.mode == 4 && !(canons.all (· == canon)) then "merged-parts-of-different-encodings"
         else
           let want : Option (Option Nat) :=       -- none = header optional (alias spelling of Latin-1)
             if !eciReq || v < 1 || s.mode != 4 then some none
